@@ -1503,4 +1503,68 @@ example : SmallInt [some 3, none, some (-2), some 5] 5 := by
 example : ¬ Faithful rndF32 [some 0, some 16777216, some 33554434] (defaultTimings 3) 3 := by
   decide +kernel
 
+/-! ### Round 5: `VisibilityGraph.__init__` in `FIELD` (float32) arithmetic -/
+
+/-- **the natural graph the constructor builds is the exact natural graph of the data it stores**
+(`self.time_series`, `self.timings` after `to_cy(·, FIELD)` / `np.arange(N, dtype=FIELD)`), for
+either value of `missing_values`, whenever the stored data are order-faithful (`FaithfulConv`,
+decided by the driver: `faithfulc`): same write log or same error -/
+theorem class_f32_is_exact_on_stored_data (rnd : Rat → Rat) (x : List Val)
+    (tm : Option (List Rat)) (missing : Bool) (hl : ∀ t, tm = some t → x.length ≤ t.length)
+    (hf : FaithfulConv rnd x tm) :
+    classLogR rnd x tm missing false
+      = classLog (toField rnd x) (some (convTimings rnd x tm)) missing false :=
+  classLogR_natural rnd x tm missing hl hf
+
+/-- hence, with `missing_values=True` and stored timings that are still strictly increasing, the
+compiled constructor never fails and `A[a,b]` is set exactly when the stored samples `a`, `b` see
+each other -/
+theorem class_f32_nvg_iff (rnd : Rat → Rat) (x : List Val) (t : List Rat)
+    (ht : t.length = x.length) (hf : FaithfulConv rnd x (some t))
+    (inc : ∀ a b, a < b → b < x.length → tAt (t.map rnd) a < tAt (t.map rnd) b) :
+    ∃ log, classLogR rnd x (some t) true false = .ok log ∧
+      ∀ a b, (a, b) ∈ log ↔
+        a < b ∧ b < x.length ∧ NVisible (toField rnd x) (t.map rnd) a b := by
+  rw [classLogR_natural rnd x (some t) true (by intro t' h; cases h; omega) hf]
+  have := class_nvg_iff (toField rnd x) (t.map rnd)
+    (by rw [List.length_map, toField_length, ht]) (by rw [toField_length]; exact inc)
+  rw [toField_length] at this
+  exact this
+
+/-- the horizontal graph: the kernel only compares, so the compiled constructor *is* the exact
+constructor on the stored series; with `hvg_float64_callers`: = the exact constructor on the
+caller's float64 values whenever the conversion merges no two samples -/
+theorem class_f32_horizontal (x : List Val) (tm : Option (List Rat)) (missing : Bool) :
+    classLogR rndF32 x tm missing true = classLog (toField rndF32 x) tm missing true ∧
+    (KeepsApart x → classLogR rndF32 x tm missing true = classLog x tm missing true) := by
+  refine ⟨classLogR_horizontal rndF32 x tm missing, fun h => ?_⟩
+  rw [classLogR_horizontal]
+  exact (hvg_float64_callers x h x.length tm missing).2.1
+
+/-- **`VisibilityGraph(x)` on a small integer series** (`|x_k| ≤ B`, `B · N ≤ 2^22`, default
+timings): conversions, `np.arange(N, dtype=FIELD)` and every rounded operation of the kernel
+included, the compiled constructor returns what the exact one returns (either value of
+`missing_values`) … -/
+theorem class_f32_small_integer_series (x : List Val) (B : Int) (hB : 1 ≤ B) (hx : SmallInt x B)
+    (hBN : B * (x.length : Int) ≤ 2 ^ 22) (missing : Bool) :
+    classLogR rndF32 x none missing false = classLog x none missing false :=
+  classLogR_smallInt x B hB hx hBN (smallInt_intSeries x B hB hx hBN) missing
+
+/-- … hence realises the geometric criterion: no hypothesis about the arithmetic -/
+theorem class_f32_small_integer_series_iff (x : List Val) (B : Int) (hB : 1 ≤ B)
+    (hx : SmallInt x B) (hBN : B * (x.length : Int) ≤ 2 ^ 22) :
+    ∃ log, classLogR rndF32 x none true false = .ok log ∧
+      ∀ a b, (a, b) ∈ log ↔ a < b ∧ b < x.length ∧ NVisible x (defaultTimings x.length) a b := by
+  rw [class_f32_small_integer_series x B hB hx hBN true]
+  exact class_nvg_iff_default x
+
+/-- sanity of the model: a double that is not a binary32 number is converted first
+(`1/3 ↦ 11184811 · 2^-25`), and the stored data of this 5-sample series are order-faithful -/
+example : toField rndF32 [some (1 / 3), none] = [some (11184811 / 33554432), none] := by
+  decide +kernel
+example : FaithfulConv rndF32 [some (1 / 3), some (1 / 10), some (2 / 3), none, some (1 / 5)]
+    (some [0, 1 / 10, 1, 2, 3]) := by decide +kernel
+example : classLogR rndF32 [some (1 / 3), some (1 / 10), some (2 / 3), none, some (1 / 5)]
+    (some [0, 1 / 10, 1, 2, 3]) true false = .ok [(0, 2), (0, 1), (1, 2)] := by decide +kernel
+
 end Pyunicorn.Visibility
